@@ -37,6 +37,21 @@ package pcs
 //@ |       && (forall j :: 0 <= j && j < k ==> !(seq(extns[j].Id) == seq(oid))) && seq(r.Value) == seq(extns[k].Value) && r.Value == extns[k].Value)
 //@   ensures[none] err != nil ==> (forall j :: 0 <= j && j < len(extns) ==> !(seq(extns[j].Id) == seq(oid)))
 
+// The elements of the TCB sequence as encoding/asn1 decodes them (DER decoding
+// itself is trusted): element k has an OID (.Type) and a value (.Value).
+//@ define tcbElem(ext, k) = asn1decode("pkix.AttributeTypeAndValue", seq(ext[k].FullBytes))
+// element k is one of the sixteen component elements: its OID is the component
+// prefix followed by an arc 1..16
+//@ define isCompOid(ext, k) = len(tcbElem(ext, k).Type) == 9 && 1 <= tcbElem(ext, k).Type[8] && tcbElem(ext, k).Type[8] <= 16
+//@ |       && (forall i :: 0 <= i && i < 8 ==> tcbElem(ext, k).Type[i] == sgxTcbComponentOidPrefix[i])
+//@ define arcOf(ext, k) = tcbElem(ext, k).Type[8]
+//@ define compVal(ext, k) = uint8(as(tcbElem(ext, k).Value, "int64"))
+// slot arc-1 holds the value of an element at or after k with the same OID
+// (with distinct OIDs, as in every certificate: exactly element k's value,
+// whatever the order of the elements)
+//@ define slotFrom(ext, k, n, comps) = exists k2 :: k <= k2 && k2 < n && isCompOid(ext, k2) && arcOf(ext, k2) == arcOf(ext, k)
+//@ |       && comps[arcOf(ext, k) - 1] == compVal(ext, k2)
+
 //@ func extractTcbExtension(tcbExtension, tcb) (err)
 //@   requires tcb != nil
 // every element is decoded into a fresh value: encoding/asn1 leaves what it does
@@ -45,6 +60,10 @@ package pcs
 //@   at Unmarshal: requires[fresh-decode-target] pristine(arg1)
 //@   assigns tcb.PCESvn, tcb.CPUSvn, tcb.CPUSvnComponents
 //@   ensures[components] err == nil ==> len(tcb.CPUSvnComponents) == 16 && fresh(tcb.CPUSvnComponents)
+//@   ensures[component-values] err == nil ==> (forall k :: 0 <= k && k < len(tcbExtension) && isCompOid(tcbExtension, k) ==>
+//@ |       slotFrom(tcbExtension, k, len(tcbExtension), tcb.CPUSvnComponents))
+//@   loop 0: invariant len(localof("[]byte")) == 16 && fresh(localof("[]byte"))
+//@   loop 0: invariant forall k :: 0 <= k && k < loopindex && isCompOid(tcbExtension, k) ==> slotFrom(tcbExtension, k, loopindex, localof("[]byte"))
 
 //@ func extractAsn1SequenceTcbExtension(ext) (r, err)
 //@   at Unmarshal: requires[fresh-decode-target] pristine(arg1)
